@@ -11,7 +11,8 @@ def run(chk):
     chk.mc('mask-definitions', 'MC_Masks', 'MC_Masks.cfg', workers=8)
     recs = core.run_driver('masks', tier=chk.tier, seed=chk.seed)
     chk.validate('masks', 'Trace_Masks', 'Trace_Masks.cfg', recs, driver='masks', jobs=14)
-    good = [r for r in recs if r['fn'] == 'wiener' and r['exc'] == '' and len(r['shape']) >= 2][0]
+    goods = [r for r in recs if r['fn'] == 'wiener' and r['exc'] == '' and len(r['shape']) >= 2]
+    good = goods[0]
 
     def corrupt(r):
         o = r['out']
@@ -19,7 +20,7 @@ def run(chk):
             o = o[0]
         o[0] = [o[0][0] + 1, o[0][1] + 1]
         return r
-    core.binding_demo(chk, 'bind-value', 'Trace_Masks', 'Trace_Masks.cfg', good, corrupt, 'value')
+    core.binding_demo(chk, 'bind-value', 'Trace_Masks', 'Trace_Masks.cfg', good, corrupt, 'value', candidates=goods[1:])
     chk.assumptions = ['inputs are lattice valued (Gaussian integers with integer modulus)',
                        'points exactly on a quantile / Lorenz threshold may take either level (float rounding of '
                        'the quantile argument); amplitude mask is not covered']
